@@ -34,7 +34,7 @@ func c15Run(args []string) int {
 		if only != "" && it.Name != only {
 			continue
 		}
-		o := transcriptOf(it.sch, bytes.NewReader(it.Input), 100000)
+		o := runItem(it, nil)
 		occ[it.Name]++
 		lines = append(lines, M{"item": it.Name, "occ": occ[it.Name], "pos": n, "proc": procSeed, "results": fpAll(o, "full")})
 		sum.eval(n > 0, M{"i": it.Name, "n": n, "p": procSeed})
